@@ -534,6 +534,20 @@ def r5(ctx, rep):
             rep.ok(k2, "sorts the elements themselves (total order)")
             continue
         row = rev.get(k2)
+        if row is None:
+            # the same sort of the same container in the same function, reached through another spelling of the loop
+            # (`for .. push` + sort  <->  `.map(..).collect()` + sort): the reviewed argument is about the key, not the loop form
+            stem = ":".join(k2.split(":")[:-1])
+            for rk, rr in rev.items():
+                if rk.startswith("sortkey:") and ":".join(rk.split(":")[:-1]).replace("&", "") == stem.replace("&", "") and rr.get("key_expr") == sk:
+                    row = rr
+                    break
+            if row is None:
+                fn_stem = ":".join(k2.split(":")[:-2])
+                for rk, rr in rev.items():
+                    if rk.startswith(fn_stem + ":") and rr.get("key_expr") == sk:
+                        row = rr
+                        break
         if row is not None and row.get("key_expr") == sk:
             if row.get("status") == "finding":
                 rep.bad(k2, f"sort key `{sk}` is not unique: {row['reason']}", file=file, line=line, fn=owner)
